@@ -22,3 +22,117 @@ def matches(finding, prop, kind, scenario):
         return bool(pred(scenario))
     except Exception:
         return False
+
+
+# ---------------------------------------------------------------------------
+# F7: duplicates in ONE Manifest that are equal, or become equal once the kept (first) one has received the
+# other's checksums: `list.remove(dup)` then removes the kept object and the stale twin survives.
+# ---------------------------------------------------------------------------
+
+def _manifest_texts(world, prefix=''):
+    out = []
+    if world[0] == 'd':
+        for k, c in world[3]:
+            nm = ''.join(chr(x) for x in k)
+            p = prefix + '/' + nm if prefix else nm
+            if c[0] == 'f' and c[1].get('m') and c[1]['m'][0] == 't':
+                out.append((p, ''.join(chr(x) for x in c[1]['m'][1])))
+            elif c[0] == 'd':
+                out += _manifest_texts(c, p)
+    return out
+
+
+def f7_paths(world):
+    """full paths hit by finding F7 in the given world"""
+    import io
+    import os
+    import gemato.manifest as gm
+    hit = set()
+    for mp, text in _manifest_texts(world):
+        m = gm.ManifestFile()
+        try:
+            m.load(io.StringIO(text), verify_openpgp=False)
+        except Exception:
+            continue
+        seen = {}
+        for e in m.entries:
+            if e.tag in ('TIMESTAMP', 'DIST', 'IGNORE'):
+                continue
+            first = seen.get(e.path)
+            if first is None:
+                seen[e.path] = e
+            elif first.tag == e.tag and first.size == e.size and set(first.checksums) <= set(e.checksums):
+                hit.add(os.path.normpath(os.path.join(os.path.dirname(mp), e.path)))
+    return hit
+
+
+@predicate('f7_equal_duplicates_in_one_manifest')
+def _f7(scenario):
+    paths = f7_paths(scenario['request']['world'])
+    probs = scenario.get('problem_paths')
+    return bool(paths) and probs is not None and set(probs) <= paths
+
+
+def _walk_nodes(world, prefix=''):
+    if world[0] == 'd':
+        for k, c in world[3]:
+            nm = ''.join(chr(x) for x in k)
+            p = prefix + '/' + nm if prefix else nm
+            yield p, nm, c
+            if c[0] == 'd':
+                yield from _walk_nodes(c, p)
+
+
+SUFFIXES = ('.gz', '.bz2', '.lzma', '.xz')
+
+
+def _strip_suffix(nm):
+    for s in SUFFIXES:
+        if nm.endswith(s):
+            return nm[:-len(s)]
+    return nm
+
+
+@predicate('f8_manifest_rename_collision')
+def _f8(scenario):
+    """a compression watermark is in force and some directory holds two Manifest files whose names differ
+    only by a compression suffix: the (de)compression rename of one lands on the other"""
+    req = scenario['request']
+    if req.get('save', {}).get('watermark') is None:
+        return False
+    per_dir = {}
+    for p, nm, c in _walk_nodes(req['world']):
+        if c[0] == 'f' and nm.startswith('Manifest'):
+            per_dir.setdefault(p.rsplit('/', 1)[0] if '/' in p else '', []).append(nm)
+    return any(len(set(_strip_suffix(n) for n in nms)) < len(nms) for nms in per_dir.values())
+
+
+@predicate('f20_special_file_named_manifest')
+def _f20(scenario):
+    """a FIFO (or other special file) named like a Manifest: opening it for reading blocks"""
+    for p, nm, c in _walk_nodes(scenario['request']['world']):
+        if c[0] == 's' and nm.startswith('Manifest'):
+            return True
+    return False
+
+
+@predicate('f21_manifest_entry_below_ignored_dir')
+def _f21(scenario):
+    """some Manifest in use is referenced by a MANIFEST entry although it lies below an IGNOREd path"""
+    import io
+    import os
+    import gemato.manifest as gm
+    ignores, manifests = [], []
+    for mp, text in _manifest_texts(scenario['request']['world']):
+        m = gm.ManifestFile()
+        try:
+            m.load(io.StringIO(text), verify_openpgp=False)
+        except Exception:
+            continue
+        d = os.path.dirname(mp)
+        for e in m.entries:
+            if e.tag == 'IGNORE':
+                ignores.append(os.path.normpath(os.path.join(d, e.path)))
+            elif e.tag == 'MANIFEST':
+                manifests.append(os.path.normpath(os.path.join(d, e.path)))
+    return any(mp == i or mp.startswith(i + '/') for mp in manifests for i in ignores)
